@@ -276,6 +276,23 @@ class Flow:
                 if pl is None or pl["p"]:
                     continue
                 lt = b.locals[pl["l"]]["ty"]
+                if lt.get("k") == "closure":
+                    # a closure handed to a call (`iter.try_for_each(|x| out.push(f(x)))`): what it captured by `&mut`
+                    # is mutated by that call; content depends on the call's other arguments (the iterated source)
+                    cd = [d for d in info.defs.get(pl["l"], []) if d[1] == "rv" and not d[0] and d[2]["k"] == "agg"]
+                    for d in cd[:1]:
+                        for cop in d[2].get("ops", []):
+                            cpl = op_place(cop)
+                            if cpl is None or cpl["p"]:
+                                continue
+                            ct = b.locals[cpl["l"]]["ty"]
+                            if ct.get("k") in ("ref", "ptr") and ct.get("mut"):
+                                cpt = self.pointee(fid, cpl["l"])
+                                # state reached through a parameter (`self`) is not given this effect: it would make
+                                # everything the converter does later depend on every source it has seen
+                                if cpt is not None and not (1 <= cpt[0] <= b.argc):
+                                    extra.append((cpt[0], (cpt[1], "eff", (t, j), False, bi)))
+                    continue
                 if lt.get("k") not in ("ref", "ptr") or not lt.get("mut"):
                     continue
                 pt = self.pointee(fid, pl["l"])
